@@ -1,6 +1,7 @@
 SPECIFICATION Spec
 CONSTANTS Names = {a, b}  Dists = {d1, d2}  MaxTrials = 4  MaxCalc = 3  IPs = {TRUE, FALSE}  Variant = "ok"
 SYMMETRY Sym
+VIEW View
 INVARIANT TypeOK
 INVARIANT CursorInvariant
 PROPERTY IncrementalEqualsScratch
